@@ -51,6 +51,16 @@ type propCfg struct {
 }
 
 var props = map[string]*propCfg{
+	"C16": {
+		ID: "C16", Pkg: "./c16/", Level: "fault_enumeration",
+		Quick:    tierCfg{Runs: 4000, Budget: 240 * time.Second, Workers: 16},
+		Thorough: tierCfg{Runs: 600000, Budget: 45 * time.Minute, Workers: 16},
+		Assume: []string{
+			"crash = process kill: completed system calls stay on disk, memory and locks of the process are gone; power loss (lost un-synced writes, rename reordering) is not modelled — the statement does not promise it and the code never calls fsync",
+			"the wire is simulated below ociclient (http.RoundTripper); everything above it, the file system and flock are real",
+			"crash points are the simhook.At sites in mod/modcache and mod/modzip.Unzip plus every chunk boundary of a response body",
+		},
+	},
 	"C18": {
 		ID: "C18", Pkg: "./c18/", Level: "exploration",
 		Quick:    tierCfg{Runs: 8000, Budget: 200 * time.Second, Workers: 16},
@@ -276,6 +286,13 @@ func check(p *propCfg, tier string) int {
 	}
 	wg.Wait()
 	exploreS := time.Since(exploreStart).Seconds()
+	// scratch cache directories of workers that died are left behind: remove them
+	if stale, _ := filepath.Glob("/dev/shm/cuesim-*"); len(stale) > 0 {
+		for _, d := range stale {
+			exec.Command("chmod", "-R", "u+w", d).Run()
+			os.RemoveAll(d)
+		}
+	}
 
 	total := &sim.WorkerResult{Faults: map[string]int{}, Counters: map[string]int{}, Probes: map[string]int{}, SiteHits: map[string]int{},
 		SiteParks: map[string]int{}, Policies: map[string]int{}, KnownHits: map[string]int{}}
